@@ -352,11 +352,11 @@ TAINTS = {
     # tainted value returned by a callee, then stored into the shared object
     "idcall": ([], ["v := idf@(source@()) // TAINT", "t.d = v"], "sink@(o.d) // SINK"),
     # tainted write through the LAST pointer parameter of a method reached through an interface call
-    "ifaceput": (["var wi W@ = &w@{}"], ["wi.Put(mk@(), t, source@()) // TAINT"], "sink@(o.d) // SINK"),
+    "ifaceput": (["var wi WP@ = &wp@{}"], ["wi.Put(mk@(), t, source@()) // TAINT"], "sink@(o.d) // SINK"),
 }
 TAINT_DECL = {"callee": "func setd@(o *T@, v string) { o.d = v }\n",
               "idcall": "func idf@(s string) string { return s }\n",
-              "ifaceput": "type W@ interface{ Put(a, b *T@, v string) }\ntype w@ struct{}\nfunc (*w@) Put(a, b *T@, v string) { b.d = v }\n"}
+              "ifaceput": "type WP@ interface{ Put(a, b *T@, v string) }\ntype wp@ struct{}\nfunc (*wp@) Put(a, b *T@, v string) { b.d = v }\n"}
 
 
 SPECIAL13_DIR = _os.path.join(_os.path.dirname(SPECIAL_DIR), "c13")
